@@ -15,15 +15,15 @@ pub mod generated;
 #[cfg(kani)]
 pub mod c04;
 #[cfg(kani)]
-mod c05;
+pub mod c05;
 #[cfg(kani)]
-mod c09;
+pub mod c09;
 #[cfg(kani)]
-mod c12;
+pub mod c12;
 #[cfg(kani)]
-mod c13;
+pub mod c13;
 #[cfg(kani)]
-mod c20;
+pub mod c20;
 #[cfg(kani)]
 #[macro_use]
 pub mod sm;
@@ -47,26 +47,3 @@ pub mod probe {
 // test Kani printed into a file and points VERIF_REPLAY_GEN at it (replay workspace only).
 #[cfg(all(kani, feature = "replay"))]
 include!(env!("VERIF_REPLAY_GEN"));
-
-// Native replay of a solver counterexample: the driver writes the concrete-playback
-// test Kani printed into a file and points VERIF_REPLAY_GEN at it (replay workspace only).
-#[cfg(all(kani, feature = "replay"))]
-include!(env!("VERIF_REPLAY_GEN"));
-
-#[cfg(kani)]
-pub mod probe2 {
-    pub fn never(_c: &tracing::callsite::DefaultCallsite) -> tracing::subscriber::Interest {
-        tracing::subscriber::Interest::never()
-    }
-    pub fn not_enabled(_m: &tracing::Metadata<'static>, _i: tracing::subscriber::Interest) -> bool {
-        false
-    }
-    pub fn no_dispatch<'a>(_m: &'static tracing::Metadata<'static>, _f: &'a tracing::field::ValueSet<'_>) where 'a: 'a {}
-    #[kani::proof]
-    #[kani::stub(tracing::callsite::DefaultCallsite::interest, never)]
-    #[kani::stub(tracing::__macro_support::__is_enabled, not_enabled)]
-    #[kani::stub(tracing::Event::dispatch, no_dispatch)]
-    pub fn tracing_plain() {
-        tracing::warn!("hello");
-    }
-}
